@@ -54,6 +54,42 @@ impl<'a, T> IntoIterator for &'a mut Own<T> {
     fn into_iter(self) -> Self::IntoIter { self.tw_mut().v.iter_mut().rev() }
 }
 pub fn lko(id: u32) -> &'static Own<A> { Box::leak(Box::new(Own::new(id, vec![A(id + 1), A(id + 2), A(id + 3)]))) }
+pub fn lko_mut(id: u32) -> &'static mut Own<A> { Box::leak(Box::new(Own::new(id, vec![A(id + 1), A(id + 2), A(id + 3)]))) }
+/// field types reached through an associated type of a type parameter (`Q::A` with `Q = Px`)
+pub trait Tr { type A; }
+#[derive(Debug, Clone, PartialEq)] pub struct Px;
+impl Tr for Px { type A = Own<B>; }
+pub static TAG: u8 = 7;
+/// lifetime-parameterised sibling of `Own` (its own impls answer from the twin as well)
+#[derive(Debug, Clone, PartialEq)]
+pub struct OwnL<'a> { pub id: u32, pub a: A, pub tag: &'a u8, pub twin: Option<Box<OwnL<'a>>> }
+impl OwnL<'static> {
+    pub fn new(id: u32) -> Self { OwnL { id, a: A(id + 1), tag: &TAG, twin: Some(Box::new(OwnL { id: id + 50, a: A(id + 2), tag: &TAG, twin: None })) } }
+}
+impl<'a> OwnL<'a> {
+    pub fn tw(&self) -> &OwnL<'a> { match &self.twin { Some(t) => t, None => self } }
+    pub fn tw_mut(&mut self) -> &mut OwnL<'a> { if self.twin.is_some() { self.twin.as_mut().unwrap() } else { self } }
+}
+impl<'a> AsRef<OwnL<'a>> for OwnL<'a> { fn as_ref(&self) -> &OwnL<'a> { self.tw() } }
+impl<'a> AsMut<OwnL<'a>> for OwnL<'a> { fn as_mut(&mut self) -> &mut OwnL<'a> { self.tw_mut() } }
+impl<'a> AsRef<A> for OwnL<'a> { fn as_ref(&self) -> &A { &self.tw().a } }
+impl<'a> AsMut<A> for OwnL<'a> { fn as_mut(&mut self) -> &mut A { &mut self.tw_mut().a } }
+pub type AliasL<'a> = OwnL<'a>;
+/// const-parameterised sibling of `Own`
+#[derive(Debug, Clone, PartialEq)]
+pub struct OwnN<const N: usize> { pub id: u32, pub v: [A; N], pub twin: Option<Box<OwnN<N>>> }
+impl<const N: usize> OwnN<N> {
+    pub fn new(id: u32) -> Self {
+        let mk = |b: u32| -> [A; N] { core::array::from_fn(|i| A(b + 1 + i as u32)) };
+        OwnN { id, v: mk(id), twin: Some(Box::new(OwnN { id: id + 50, v: mk(id), twin: None })) }
+    }
+    pub fn tw(&self) -> &OwnN<N> { match &self.twin { Some(t) => t, None => self } }
+    pub fn tw_mut(&mut self) -> &mut OwnN<N> { if self.twin.is_some() { self.twin.as_mut().unwrap() } else { self } }
+}
+impl<const N: usize> AsRef<OwnN<N>> for OwnN<N> { fn as_ref(&self) -> &OwnN<N> { self.tw() } }
+impl<const N: usize> AsMut<OwnN<N>> for OwnN<N> { fn as_mut(&mut self) -> &mut OwnN<N> { self.tw_mut() } }
+impl<const N: usize> AsRef<[A]> for OwnN<N> { fn as_ref(&self) -> &[A] { &self.tw().v[..] } }
+impl<const N: usize> AsMut<[A]> for OwnN<N> { fn as_mut(&mut self) -> &mut [A] { &mut self.tw_mut().v[..] } }
 pub type OwnA = Own<A>;
 pub type OwnB = Own<B>;
 pub type VecA = Vec<A>;
@@ -74,11 +110,27 @@ pub fn ckid(o: &mut Out, what: &str, exp: (usize, usize), got: (usize, usize), f
 }
 "#;
 
+/// Recorded genuine defect (reported, not repaired yet): `GenericsSearch` (impl/src/utils.rs, `visit_type_path`)
+/// does not see the type parameter in the shorthand projection `Q::A`, so `#[as_ref(<foreign type>)]` on a field
+/// of type `Q::A` takes the autoref-specialised body, which cannot name the `Q::A: AsRef<..>` bound (E0599).
+/// While `true`, a type list on a `Q::A` field only names the field's own type (the qualified spelling
+/// `<Q as Tr>::A` of the field type carries the foreign lists).
+const AVOID_ASSOC_SHORTHAND_FOREIGN_LIST: bool = false;
+/// Recorded inconsistency (reported, not repaired yet): `#[into_iterator(ref, ref_mut)]` on the selected field
+/// yields no owned impl (tests/into_iterator.rs, `Numbers3`) *unless* a field carrying `#[into_iterator(ignore)]`
+/// precedes it (the `owned` default is taken from the first attributed field, impl/src/utils.rs `new_impl`).
+/// While `true`, the owned-absence probe is not emitted for that arrangement.
+const AVOID_ITER_OWNED_ABSENCE_AFTER_IGNORED_FIELD: bool = true;
+
 /// capabilities: 1 = Deref (forward), 2 = Index, 4 = IntoIterator, 8 = AsRef/AsMut to other types
 struct Ty {
     decl: &'static str,
     inst: &'static str,
     caps: u8,
+    /// generic parameters of the struct the declared type needs: 1 = `T`, 2 = `V`, 4 = `Q: Tr`, 8 = `'a`, 16 = `const N`
+    gen: u8,
+    /// `AsRef<decl>` for the struct unifies with every other `AsRef<X>` impl (bare parameter, projection)
+    catch_all: bool,
     elem: &'static str,
     /// spellings of the type itself usable in `#[as_ref(..)]`: (spelling, is the derive documented to treat it as the field type)
     selfs: &'static [(&'static str, bool)],
@@ -86,25 +138,40 @@ struct Ty {
     foreign: &'static [(&'static str, &'static str)],
 }
 
-const TYS: [Ty; 8] = [
-    Ty { decl: "Own<A>", inst: "Own<A>", caps: 15, elem: "A", selfs: &[("Own<A>", true), ("OwnA", true), ("crate::Own<A>", true)], foreign: &[("[A]", "[A]"), ("Vec<A>", "Vec<A>")] },
-    Ty { decl: "Own<B>", inst: "Own<B>", caps: 15, elem: "B", selfs: &[("Own<B>", true), ("OwnB", true), ("crate::Own<B>", true)], foreign: &[("[B]", "[B]"), ("Vec<B>", "Vec<B>")] },
-    Ty { decl: "Vec<A>", inst: "Vec<A>", caps: 15, elem: "A", selfs: &[("Vec<A>", true), ("VecA", true), ("std::vec::Vec<A>", true)], foreign: &[("[A]", "[A]")] },
+const TYS: [Ty; 14] = [
+    Ty { decl: "Own<A>", inst: "Own<A>", caps: 15, gen: 0, catch_all: false, elem: "A", selfs: &[("Own<A>", true), ("OwnA", true), ("crate::Own<A>", true)], foreign: &[("[A]", "[A]"), ("Vec<A>", "Vec<A>")] },
+    Ty { decl: "Own<B>", inst: "Own<B>", caps: 15, gen: 0, catch_all: false, elem: "B", selfs: &[("Own<B>", true), ("OwnB", true), ("crate::Own<B>", true)], foreign: &[("[B]", "[B]"), ("Vec<B>", "Vec<B>")] },
+    Ty { decl: "Vec<A>", inst: "Vec<A>", caps: 15, gen: 0, catch_all: false, elem: "A", selfs: &[("Vec<A>", true), ("VecA", true), ("std::vec::Vec<A>", true)], foreign: &[("[A]", "[A]")] },
     // generic field type: only the string-equal spelling counts as "the field's type" (as_ref.md, WARNING box)
-    Ty { decl: "Own<T>", inst: "Own<C>", caps: 15, elem: "C", selfs: &[("Own<T>", true), ("Own<T>", true), ("crate::Own<T>", false)], foreign: &[("[T]", "[C]"), ("Vec<T>", "Vec<C>")] },
-    Ty { decl: "Box<Own<A>>", inst: "Box<Own<A>>", caps: 9, elem: "A", selfs: &[("Box<Own<A>>", true), ("BoxOwnA", true), ("std::boxed::Box<Own<A>>", true)], foreign: &[("Own<A>", "Own<A>")] },
-    Ty { decl: "u64", inst: "u64", caps: 0, elem: "", selfs: &[], foreign: &[] },
-    Ty { decl: "String", inst: "String", caps: 0, elem: "", selfs: &[], foreign: &[] },
+    Ty { decl: "Own<T>", inst: "Own<C>", caps: 15, gen: 1, catch_all: false, elem: "C", selfs: &[("Own<T>", true), ("Own<T>", true), ("crate::Own<T>", false)], foreign: &[("[T]", "[C]"), ("Vec<T>", "Vec<C>")] },
+    Ty { decl: "Box<Own<A>>", inst: "Box<Own<A>>", caps: 9, gen: 0, catch_all: false, elem: "A", selfs: &[("Box<Own<A>>", true), ("BoxOwnA", true), ("std::boxed::Box<Own<A>>", true)], foreign: &[("Own<A>", "Own<A>")] },
+    Ty { decl: "u64", inst: "u64", caps: 0, gen: 0, catch_all: false, elem: "", selfs: &[], foreign: &[] },
+    Ty { decl: "String", inst: "String", caps: 0, gen: 0, catch_all: false, elem: "", selfs: &[], foreign: &[] },
     // deref.md: forwarding is meant "for when the field itself is a reference type like `&` and `Box`"
-    Ty { decl: "&'static Own<A>", inst: "&'static Own<A>", caps: 1, elem: "A", selfs: &[], foreign: &[] },
+    Ty { decl: "&'static Own<A>", inst: "&'static Own<A>", caps: 1, gen: 0, catch_all: false, elem: "A", selfs: &[], foreign: &[] },
+    // 8: a bare type parameter as the field (as_ref.md: `#[as_ref(i32)] struct Generic<T>(T)`, `#[as_ref(T)] struct Transparent<T>(T)`)
+    Ty { decl: "V", inst: "Own<C>", caps: 15, gen: 2, catch_all: true, elem: "C", selfs: &[("V", true), ("V", true)], foreign: &[("[C]", "[C]"), ("Vec<C>", "Vec<C>")] },
+    // 9, 10: an associated type of a type parameter, shorthand and qualified spelling ("contains generic parameters")
+    Ty { decl: "Q::A", inst: "Own<B>", caps: 15, gen: 4, catch_all: true, elem: "B", selfs: &[("Q::A", true), ("Q::A", true), ("<Q as Tr>::A", false)], foreign: &[("[B]", "[B]"), ("Vec<B>", "Vec<B>")] },
+    Ty { decl: "<Q as Tr>::A", inst: "Own<B>", caps: 15, gen: 4, catch_all: true, elem: "B", selfs: &[("<Q as Tr>::A", true), ("<Q as Tr>::A", true), ("Q::A", false)], foreign: &[("[B]", "[B]"), ("Vec<B>", "Vec<B>")] },
+    // 11, 12: lifetime / const parameters inside the field type (tests/as_ref.rs: `LifetimeHelper<'a>`, `ConstParamHelper<N>`)
+    Ty { decl: "OwnL<'a>", inst: "OwnL<'static>", caps: 8, gen: 8, catch_all: false, elem: "", selfs: &[("OwnL<'a>", true), ("OwnL<'a>", true), ("AliasL<'a>", false), ("crate::OwnL<'a>", false)], foreign: &[("A", "A")] },
+    Ty { decl: "OwnN<N>", inst: "OwnN<2>", caps: 8, gen: 16, catch_all: false, elem: "", selfs: &[("OwnN<N>", true), ("OwnN<N>", true), ("crate::OwnN<N>", false), ("OwnN<{ N }>", false)], foreign: &[("[A]", "[A]")] },
+    // 13: deref_mut.md: forwarding "for when the field itself is a reference type like `&mut` and `Box`"
+    Ty { decl: "&'a mut Own<A>", inst: "&'static mut Own<A>", caps: 1, gen: 8, catch_all: false, elem: "A", selfs: &[], foreign: &[] },
 ];
+const TY_MUT_REF: usize = 13;
+const TY_ASSOC_SHORTHAND: usize = 9;
 
 fn value_of(ty: usize, k: usize) -> String {
     let b = 100 * (k + 1);
     let e = TYS[ty].elem;
     let elems = format!("vec![{e}({}), {e}({}), {e}({})]", b + 1, b + 2, b + 3);
     match ty {
-        0 | 1 | 3 => format!("Own::new({b}, {elems})"),
+        0 | 1 | 3 | 8 | 9 | 10 => format!("Own::new({b}, {elems})"),
+        11 => format!("OwnL::new({b})"),
+        12 => format!("OwnN::new({b})"),
+        13 => format!("lko_mut({b})"),
         2 => elems,
         4 => format!("Box::new(Own::new({b}, {elems}))"),
         5 => format!("{b}u64"),
@@ -115,7 +182,8 @@ fn value_of(ty: usize, k: usize) -> String {
 /// (statement writing through `r: &mut FieldTy`, condition on the field `s.F` that proves the write landed there)
 fn write_probe(ty: usize, f: &str) -> (String, String) {
     match ty {
-        0 | 1 | 3 | 4 => ("r.id = 4242;".into(), format!("s.{f}.id == 4242")),
+        0 | 1 | 3 | 4 | 8 | 9 | 10 | 11 | 12 => ("r.id = 4242;".into(), format!("s.{f}.id == 4242")),
+        13 => ("*r = lko_mut(4242);".into(), format!("s.{f}.id == 4242")),
         2 => ("r.push(A(4242));".into(), format!("s.{f}.last() == Some(&A(4242))")),
         5 => ("*r = 4242;".into(), format!("s.{f} == 4242")),
         7 => ("*r = lko(4242);".into(), format!("s.{f}.id == 4242")),
@@ -163,6 +231,8 @@ struct Model {
     iter: Option<Legacy>,
     as_ref: Option<AsGroup>,
     as_mut: Option<AsGroup>,
+    /// 0 = no bounds on the struct, 1 = inline bounds, 2 = where-clause
+    bound_style: usize,
 }
 
 const NAMES: [&str; 4] = ["first", "r#type", "third", "last_one"];
@@ -201,9 +271,30 @@ fn gen_legacy(d: &mut Dice, tys: &[usize], cap: u8, can_forward: bool, is_iter: 
 
 fn gen_types(d: &mut Dice, ty: usize) -> Vec<(String, String, bool)> {
     let t = &TYS[ty];
+    let wsel = [4u32, 4, 2, 2];
     let mut out = vec![];
+    if t.catch_all {
+        // `impl<V> AsRef<V> for S<V>` unifies with every other impl: the list names the field's type *or* foreign types
+        let foreign_ok = !(AVOID_ASSOC_SHORTHAND_FOREIGN_LIST && ty == TY_ASSOC_SHORTHAND);
+        if !foreign_ok || d.chance(45) {
+            let (sp, same) = t.selfs[d.weighted(&wsel[..t.selfs.len()])];
+            return vec![(sp.to_string(), t.inst.to_string(), same)];
+        }
+        for (decl, inst) in t.foreign {
+            if d.chance(55) {
+                out.push((decl.to_string(), inst.to_string(), false));
+            }
+        }
+        if out.is_empty() {
+            out.push((t.foreign[0].0.to_string(), t.foreign[0].1.to_string(), false));
+        }
+        if d.chance(50) {
+            out.reverse();
+        }
+        return out;
+    }
     if d.chance(60) {
-        let (sp, same) = t.selfs[d.weighted(&[4, 4, 2])];
+        let (sp, same) = t.selfs[d.weighted(&wsel[..t.selfs.len()])];
         out.push((sp.to_string(), t.inst.to_string(), same));
     }
     for (decl, inst) in t.foreign {
@@ -219,6 +310,12 @@ fn gen_types(d: &mut Dice, ty: usize) -> Vec<(String, String, bool)> {
         out.reverse();
     }
     out
+}
+
+/// could `impl AsRef<a> for S<..>` and `impl AsRef<b> for S<..>` (declared field types `a`, `b`) overlap?
+fn as_clash(a: usize, b: usize) -> bool {
+    let own = |x: usize| TYS[x].inst.starts_with("Own<");
+    TYS[a].catch_all || TYS[b].catch_all || TYS[a].inst == TYS[b].inst || (a == 3 && own(b)) || (b == 3 && own(a))
 }
 
 fn gen_as(d: &mut Dice, tys: &[usize]) -> AsGroup {
@@ -244,8 +341,7 @@ fn gen_as(d: &mut Dice, tys: &[usize]) -> AsGroup {
         let mut skipped = vec![];
         for k in 0..nf {
             // `impl<T> AsRef<Own<T>> for S<T>` and `impl<T> AsRef<Own<A>> for S<T>` would overlap
-            let clash = |a: usize, b: usize| a == b || (a == 3 && b < 2) || (b == 3 && a < 2);
-            if !kept.iter().any(|j| clash(tys[*j], tys[k])) && d.chance(60) {
+            if !kept.iter().any(|j| as_clash(tys[*j], tys[k])) && d.chance(60) {
                 kept.push(k);
             } else {
                 skipped.push((k, if d.chance(50) { "skip" } else { "ignore" }));
@@ -271,7 +367,8 @@ fn gen_as(d: &mut Dice, tys: &[usize]) -> AsGroup {
             Conv::Types(l) => l.iter().map(|x| x.1.clone()).collect(),
             _ => vec![TYS[tys[sel]].inst.to_string()],
         };
-        if let Some(k) = (0..nf).find(|k| *k != sel && tys[*k] != tys[sel] && tys[*k] != 3 && tys[sel] != 3 && !taken.iter().any(|t| t == TYS[tys[*k]].inst)) {
+        let tgen = |x: usize| TYS[x].gen & 7 != 0;
+        if let Some(k) = (0..nf).find(|k| *k != sel && !as_clash(tys[*k], tys[sel]) && !tgen(tys[*k]) && !tgen(tys[sel]) && !taken.iter().any(|t| t == TYS[tys[*k]].inst)) {
             entries.push((k, Conv::Bare));
         }
     }
@@ -286,7 +383,7 @@ fn gen_model(d: &mut Dice) -> Model {
         if k > 0 && d.chance(65) {
             tys.push(tys[k - 1]);
         } else {
-            tys.push(d.weighted(&[6, 2, 4, 4, 2, 1, 1, 2]));
+            tys.push(d.weighted(&[8, 3, 6, 4, 3, 1, 1, 2, 2, 2, 1, 2, 2, 1]));
         }
     }
     let names: Vec<String> = (0..nf).map(|k| if named { NAMES[k].to_string() } else { k.to_string() }).collect();
@@ -299,7 +396,10 @@ fn gen_model(d: &mut Dice) -> Model {
     let iter = if want[2] { gen_legacy(d, &tys, 4, false, true) } else { None };
     let as_ref = if want[3] { Some(gen_as(d, &tys)) } else { None };
     let as_mut = if want[4] { Some(gen_as(d, &tys)) } else { None };
-    let mut m = Model { named, tys, names, deref, index, iter, as_ref, as_mut };
+    let params = tys.iter().fold(0u8, |a, t| a | TYS[*t].gen);
+    // struct-level bounds: none / inline on the parameters / a where-clause (tests/into_iterator.rs `Generic2`)
+    let bound_style = if params != 0 { d.weighted(&[5, 3, 3]) } else { 0 };
+    let mut m = Model { named, tys, names, deref, index, iter, as_ref, as_mut, bound_style };
     if m.deref.is_none() && m.index.is_none() && m.iter.is_none() && m.as_ref.is_none() && m.as_mut.is_none() {
         m.as_ref = Some(gen_as(d, &m.tys));
     }
@@ -307,8 +407,53 @@ fn gen_model(d: &mut Dice) -> Model {
 }
 
 impl Model {
+    fn params(&self) -> u8 {
+        self.tys.iter().fold(0u8, |a, t| a | TYS[*t].gen)
+    }
     fn generic(&self) -> bool {
-        self.tys.contains(&3)
+        self.params() != 0
+    }
+    /// (declaration, type arguments, instantiation, where-clause) of the struct's generic parameters
+    fn generics(&self) -> (String, String, String, String) {
+        let p = self.params();
+        if p == 0 {
+            return (String::new(), String::new(), String::new(), String::new());
+        }
+        let inl = self.bound_style == 1;
+        let (mut decl, mut args, mut inst, mut wh): (Vec<String>, Vec<String>, Vec<String>, Vec<String>) = (vec![], vec![], vec![], vec![]);
+        if p & 8 != 0 {
+            decl.push("'a".into());
+            args.push("'a".into());
+            inst.push("'static".into());
+        }
+        if p & 1 != 0 {
+            decl.push(if inl { "T: Clone".into() } else { "T".into() });
+            args.push("T".into());
+            inst.push("C".into());
+            wh.push("T: Clone".into());
+        }
+        if p & 2 != 0 {
+            decl.push(if inl { "V: Clone".into() } else { "V".into() });
+            args.push("V".into());
+            inst.push("Own<C>".into());
+            wh.push("V: Clone".into());
+        }
+        if p & 4 != 0 {
+            decl.push(if inl { "Q: Tr + Clone".into() } else { "Q: Tr".into() });
+            args.push("Q".into());
+            inst.push("Px".into());
+            wh.push("Q: Clone".into());
+        }
+        if p & 16 != 0 {
+            decl.push("const N: usize".into());
+            args.push("N".into());
+            inst.push("2".into());
+        }
+        if wh.is_empty() {
+            wh.push(if p & 8 != 0 { "'a: 'a".to_string() } else { "[u8; N]: Sized".to_string() });
+        }
+        let wh = if self.bound_style == 2 { format!(" where {}", wh.join(", ")) } else { String::new() };
+        (format!("<{}>", decl.join(", ")), format!("<{}>", args.join(", ")), format!("<{}>", inst.join(", ")), wh)
     }
     fn legacy_attrs(&self, l: &Legacy, an: &str, struct_attrs: &mut Vec<String>, field_attrs: &mut [Vec<String>]) {
         let nf = self.tys.len();
@@ -402,17 +547,25 @@ impl Model {
             }
         }
         let mut s = String::new();
+        // `&mut` fields are not `Clone`; std's derives do not bound `<Q as Tr>::A` (nothing in `run` needs them)
+        let std_derives = if self.params() & 4 != 0 {
+            ""
+        } else if self.tys.contains(&TY_MUT_REF) {
+            "Debug, "
+        } else {
+            "Debug, Clone, "
+        };
         if with_derives {
             let ds: Vec<String> = self.derives().iter().map(|x| format!("derive_more::{x}")).collect();
-            s.push_str(&format!("#[derive(Debug, Clone, {})]\n", ds.join(", ")));
-        } else {
-            s.push_str("#[derive(Debug, Clone)]\n");
+            s.push_str(&format!("#[derive({std_derives}{})]\n", ds.join(", ")));
+        } else if !std_derives.is_empty() {
+            s.push_str(&format!("#[derive({})]\n", std_derives.trim_end_matches(", ")));
         }
         for a in &sa {
             s.push_str(a);
             s.push('\n');
         }
-        let g = if self.generic() { "<T>" } else { "" };
+        let (g, _, _, wh) = self.generics();
         let fld = |k: usize| {
             let attrs: String = fa[k].iter().map(|a| format!("{a} ")).collect();
             if self.named {
@@ -423,9 +576,9 @@ impl Model {
         };
         let fields: String = (0..nf).map(fld).collect();
         if self.named {
-            s.push_str(&format!("pub struct S{g} {{\n{fields}}}\n"));
+            s.push_str(&format!("pub struct S{g}{wh} {{\n{fields}}}\n"));
         } else {
-            s.push_str(&format!("pub struct S{g}(\n{fields});\n"));
+            s.push_str(&format!("pub struct S{g}(\n{fields}){wh};\n"));
         }
         s
     }
@@ -437,7 +590,8 @@ impl Model {
         } else {
             format!("S({})", vals.join(", "))
         };
-        let sc = if self.generic() { "S<C>" } else { "S" };
+        let (_, _, inst, _) = self.generics();
+        let sc = format!("S{inst}");
         format!(
             "pub type SC = {sc};\npub fn mk() -> SC {{ {ctor} }}\npub fn flds(s: &SC) -> Vec<(usize, usize)> {{ vec![{}] }}\n",
             (0..nf).map(|k| format!("id(&s.{})", self.names[k])).collect::<Vec<_>>().join(", ")
@@ -480,6 +634,8 @@ fn render(m: &Model) -> GenCase {
     let mut any_forward = false;
     let mut any_list = false;
     let mut selected: Vec<usize> = vec![];
+    // user impls that collide with an impl the derive must *not* generate
+    let mut probes = String::new();
 
     if let Some(l) = &m.deref {
         let (k, fk, t) = (l.sel, f(l.sel), ft(l.sel));
@@ -487,6 +643,9 @@ fn render(m: &Model) -> GenCase {
         if l.forward {
             any_forward = true;
             labels.push("deref_forward".into());
+            if m.tys[k] == TY_MUT_REF && l.with_mut {
+                labels.push("deref_mut_forward_through_mut_ref".into());
+            }
             run.push_str(&format!(
                 "    {{\n        let s = mk();\n        ckid(o, \"Deref with forward returns what the selected field's own Deref returns\", id(<{t} as std::ops::Deref>::deref(&s.{fk})), id(&*s), &flds(&s));\n    }}\n"
             ));
@@ -534,9 +693,24 @@ fn render(m: &Model) -> GenCase {
         selected.push(k);
         let expected: Vec<usize> = if l.kinds.is_empty() { vec![0] } else { l.kinds.clone() };
         let found = discover_iter_kinds(&item);
+        // tests/into_iterator.rs (`Numbers3`): "`owned` is not enabled when `ref`/`ref_mut` are enabled without `owned`".
+        // A user impl for the struct itself collides (E0119) iff the derive generated the owned form anyway.
+        let first_attributed_is_sel = l.mark || l.sel == 0;
+        let owned_must_be_absent = l.kinds == vec![1, 2] && !l.at_struct && (first_attributed_is_sel || !AVOID_ITER_OWNED_ABSENCE_AFTER_IGNORED_FIELD);
+        if owned_must_be_absent {
+            let (gd, ga, _, wh) = m.generics();
+            probes.push_str(&format!(
+                "impl{gd} IntoIterator for S{ga}{wh} {{ type Item = (); type IntoIter = std::iter::Empty<()>; fn into_iter(self) -> Self::IntoIter {{ std::iter::empty() }} }}\n"
+            ));
+            labels.push("absence_probe_iter_owned".into());
+        }
         run.push_str("    let mut forms: Vec<String> = vec![];\n");
         for kind in 0..3 {
             if !expected.contains(&kind) && !found.contains(&kind) {
+                continue;
+            }
+            if kind == 0 && owned_must_be_absent {
+                // (`<SC as IntoIterator>` is the probe's impl here; a generated one is a compile error)
                 continue;
             }
             if !expected.contains(&kind) {
@@ -566,6 +740,34 @@ fn render(m: &Model) -> GenCase {
         if !g.skipped.is_empty() {
             labels.push("as_skip_style".into());
         }
+        {
+            // "An implementation will be generated for each indicated field" / "for non-indicated fields" (skip style):
+            // none for the others. A user impl `AsRef<OtherFieldTy>` collides (E0119) iff the derive generated one anyway.
+            // Only where no generated impl can unify with it: no blanket (`forward`) impl, nothing mentioning a type parameter.
+            let tgen = |k: usize| TYS[m.tys[k]].gen & 7 != 0;
+            let blanket = g.entries.iter().any(|(_, c)| matches!(c, Conv::Forward));
+            let generic_target = g.entries.iter().any(|(k, _)| tgen(*k));
+            if !blanket && !generic_target {
+                let mut taken: Vec<String> = vec![];
+                for (k, c) in &g.entries {
+                    match c {
+                        Conv::Types(l) => taken.extend(l.iter().map(|x| x.1.clone())),
+                        _ => taken.push(ft(*k).to_string()),
+                    }
+                }
+                let (gd, ga, _, wh) = m.generics();
+                for k in 0..nf {
+                    if g.entries.iter().any(|(j, _)| *j == k) || tgen(k) || taken.iter().any(|t| t == ft(k)) {
+                        continue;
+                    }
+                    taken.push(ft(k).to_string());
+                    let x = TYS[m.tys[k]].decl;
+                    let mt = if mutable { "mut " } else { "" };
+                    probes.push_str(&format!("impl{gd} {tr}<{x}> for S{ga}{wh} {{ fn {meth}(&{mt}self) -> &{mt}{x} {{ loop {{}} }} }}\n"));
+                    labels.push("absence_probe_as".into());
+                }
+            }
+        }
         for (k, c) in &g.entries {
             let (k, fk, t) = (*k, f(*k), ft(*k));
             selected.push(k);
@@ -586,6 +788,15 @@ fn render(m: &Model) -> GenCase {
                 Conv::Types(l) => {
                     any_list = true;
                     for x in l {
+                        match m.tys[k] {
+                            8 => labels.push("as_list_on_bare_type_param_field".into()),
+                            9 | 10 => labels.push("as_list_on_assoc_type_field".into()),
+                            11 | 12 => labels.push("as_list_on_lifetime_or_const_generic_field".into()),
+                            _ => {}
+                        }
+                        if matches!(m.tys[k], 11 | 12) && x.1 == t && !x.2 {
+                            labels.push("as_list_lifetime_or_const_generic_other_spelling".into());
+                        }
                         if x.1 == t && x.2 && x.0 != TYS[m.tys[k]].decl {
                             labels.push("as_list_field_type_via_alias_or_path".into());
                         } else if x.1 == t && x.2 {
@@ -632,6 +843,7 @@ fn render(m: &Model) -> GenCase {
     let mut body = String::new();
     body.push_str(&item);
     body.push_str(&m.support());
+    body.push_str(&probes);
     body.push_str(&format!("#[allow(unused_mut)]\npub fn run(o: &mut Out) {{\n{run}}}\n"));
 
     let same_type_neighbours = (1..nf).any(|k| m.tys[k] == m.tys[k - 1]);
@@ -656,6 +868,31 @@ fn render(m: &Model) -> GenCase {
     }
     if nf == 1 {
         labels.push("single_field".into());
+    }
+    for k in &selected {
+        match m.tys[*k] {
+            8 => labels.push("selected_bare_type_param_field".into()),
+            9 | 10 => labels.push("selected_assoc_type_field".into()),
+            11 => labels.push("selected_lifetime_generic_field".into()),
+            12 => labels.push("selected_const_generic_field".into()),
+            13 => labels.push("selected_mut_ref_field".into()),
+            _ => {}
+        }
+    }
+    let p = m.params();
+    if p & 8 != 0 {
+        labels.push("struct_lifetime_param".into());
+    }
+    if p & 16 != 0 {
+        labels.push("struct_const_param".into());
+    }
+    if p.count_ones() >= 2 {
+        labels.push("struct_several_generic_params".into());
+    }
+    match m.bound_style {
+        1 => labels.push("struct_inline_bounds".into()),
+        2 => labels.push("struct_where_clause".into()),
+        _ => {}
     }
     if m.generic() {
         labels.push("generic".into());
@@ -707,9 +944,11 @@ pub fn prop() -> DiceProp {
         build,
         fixed: no_fixed,
         classify,
-        rule: "tuple / named struct with 1..4 fields (65 % of the neighbours repeat the previous field's type; types `Own<A>`, `Own<B>`, `Own<T>`, `Vec<A>`, `Box<Own<A>>`, `&'static Own<A>`, fillers) deriving a subset of Deref(+DerefMut), Index(+IndexMut), IntoIterator, AsRef, AsMut, each with its own selected field expressed by `#[attr]` on it or `#[attr(ignore)]` on the others (AsRef/AsMut: marked fields, skip style), `forward` on field or struct, type lists containing the field's own type verbatim / through an alias / through another path and foreign types, owned/ref/ref_mut; oracle: (address, size) of what the derived impl returns == the selected field's own storage (no forward; listed type == field type) resp. == what `<FieldTy as Trait>::method(&s.field)` returns (forward, index, listed foreign type), element addresses/values and order for the three iteration forms, writes through the mutable forms visible in the field; `Own`'s own impls answer from a second allocation so the two expectations never coincide; non-trivial = two fields of equal type, or forward, or a type list; distinct by program text".into(),
+        rule: "tuple / named struct with 1..4 fields (65 % of the neighbours repeat the previous field's type; types `Own<A>`, `Own<B>`, `Own<T>`, `Vec<A>`, `Box<Own<A>>`, `&'static Own<A>`, a bare parameter `V`, projections `Q::A` / `<Q as Tr>::A`, `OwnL<'a>`, `OwnN<N>`, `&'a mut Own<A>`, fillers; the struct's lifetime / type / const parameters as the fields need them, optionally with inline bounds or a where-clause) deriving a subset of Deref(+DerefMut), Index(+IndexMut), IntoIterator, AsRef, AsMut, each with its own selected field expressed by `#[attr]` on it or `#[attr(ignore)]` on the others (AsRef/AsMut: marked fields, skip style), `forward` on field or struct, type lists containing the field's own type verbatim / through an alias / through another path and foreign types, owned/ref/ref_mut; oracle: (address, size) of what the derived impl returns == the selected field's own storage (no forward; listed type == field type) resp. == what `<FieldTy as Trait>::method(&s.field)` returns (forward, index, listed foreign type), element addresses/values and order for the three iteration forms, writes through the mutable forms visible in the field; user impls that collide (E0119) with an impl the derive must not generate (AsRef/AsMut of un-indicated / skipped fields, owned IntoIterator under a field-level `ref, ref_mut`); `Own`'s own impls answer from a second allocation so the two expectations never coincide; non-trivial = two fields of equal type, or forward, or a type list; distinct by program text".into(),
         assumptions: vec![
-            "IntoIterator forms that are not listed in the attribute but present in the expansion (e.g. `owned` next to a lone `ref`) are checked too, their existence is not asserted".into(),
+            "IntoIterator forms that are not listed in the attribute but present in the expansion (e.g. `owned` next to a lone `ref`) are checked too, their existence is not asserted; the absence of `owned` is asserted only for a field-level `ref, ref_mut` (tests/into_iterator.rs `Numbers3`)".into(),
+            "absence probes for AsRef/AsMut are emitted only where no generated impl can unify with the probe (no `forward`, no type parameter in a selected field's type)".into(),
+            "AVOID_ASSOC_SHORTHAND_FOREIGN_LIST / AVOID_ITER_OWNED_ABSENCE_AFTER_IGNORED_FIELD: two reported deviations are kept out of the generated domain until repaired (see the constants)".into(),
         ],
         floors: vec![
             ("neighbouring_fields_same_type".into(), 0.4),
@@ -723,6 +962,16 @@ pub fn prop() -> DiceProp {
             ("generic".into(), 0.15),
             ("ignore_the_others_style".into(), 0.15),
             ("into_iterator_several_forms".into(), 0.1),
+            ("selected_assoc_type_field".into(), 0.05),
+            ("selected_bare_type_param_field".into(), 0.03),
+            ("selected_lifetime_generic_field".into(), 0.03),
+            ("selected_const_generic_field".into(), 0.03),
+            ("selected_mut_ref_field".into(), 0.01),
+            ("as_list_on_lifetime_or_const_generic_field".into(), 0.02),
+            ("struct_where_clause".into(), 0.05),
+            ("struct_inline_bounds".into(), 0.05),
+            ("absence_probe_as".into(), 0.05),
+            ("absence_probe_iter_owned".into(), 0.02),
             ("derive=Deref".into(), 0.3),
             ("derive=DerefMut".into(), 0.2),
             ("derive=Index".into(), 0.3),
